@@ -1,4 +1,5 @@
 pub mod engine;
+pub mod flavours;
 pub mod gen;
 pub mod json;
 pub mod lib_util;
